@@ -25,6 +25,7 @@ DeepSame(a, b) ==
         b.k = a.k /\ Len(a.v) = Len(b.v) /\ \A i \in 1..Len(a.v) : DeepSame(a.v[i], b.v[i])
     ELSE IF a.k = "bool" THEN b.k = "bool" /\ a.b = b.b
     ELSE IF a.k = "ctx" THEN b.k = "ctx" /\ a.c = b.c
+    ELSE IF a.k = "uninit" THEN b.k = "uninit"
     ELSE IF a.k = "big" THEN b.k = "big" /\ a.s = b.s /\ a.n = b.n /\ a.d = b.d
     ELSE IF IsNum(a) THEN b.k \in {"fin", "inf", "nan"} /\ Same(a, Canon(b))
     ELSE FALSE
@@ -36,6 +37,7 @@ DeepSameZ(a, b) ==
         b.k = a.k /\ Len(a.v) = Len(b.v) /\ \A i \in 1..Len(a.v) : DeepSameZ(a.v[i], b.v[i])
     ELSE IF a.k = "bool" THEN b.k = "bool" /\ a.b = b.b
     ELSE IF a.k = "ctx" THEN b.k = "ctx" /\ a.c = b.c
+    ELSE IF a.k = "uninit" THEN b.k = "uninit"
     ELSE IF a.k = "big" THEN b.k = "big" /\ a.s = b.s /\ a.n = b.n /\ a.d = b.d
     ELSE IF IsNum(a) THEN b.k \in {"fin", "inf", "nan"} /\ SameVal(a, Canon(b))
     ELSE FALSE
